@@ -218,6 +218,19 @@ def run(rep: Report, tier: str) -> None:  # noqa: C901
     for f in sub2.findings:
         rep.add(Finding("R25.5", f.key.replace("R24.4", "R25.5"), f.file, f.line, f.func, f.message))
 
+    # ---------------- R25.7 one renderer per rendering ----------------
+    rep.rule("R25.7", "each transformation / definition is rendered by its own ASTString instance (the renderer keeps per-call flags)")
+    from sa import globalsx as _gx
+    n_new = 0
+    for f_ in P.iter_functions():
+        if f_.module.name.startswith("vtlengine.API"):
+            for n_ in walk_no_nested(f_.node):
+                if isinstance(n_, ast.Call) and P.resolve_expr(f_.module, n_.func) == "vtlengine.AST.ASTString.ASTString":
+                    n_new += 1
+                    rep.instance("R25.7", f"fresh/{f_.name}", sample=src(n_)[:60])
+    rep.instance("R25.7", "stateful", sample=sorted(_gx.stateful_attrs(P, "vtlengine.AST.ASTString.ASTString"))[:8])
+    _gx.report_shared_instances(P, rep, "R25.7", "vtlengine.AST.ASTString.ASTString", "a later transformation is rendered with clauses dropped or added (e.g. an aggregation without its group by)")
+
     # ---------------- R25.6 API wiring ----------------
     rep.rule("R25.6", "generate_sdmx passes the whole parsed script to ast_to_sdmx and returns its result unchanged")
     gs = P.func("vtlengine.API.generate_sdmx")
